@@ -11,7 +11,7 @@ R15.6 repeated sections accumulate (same rule as C16/R16.1)
 from __future__ import annotations
 
 import ast
-from typing import Dict, List, Optional, Set
+from typing import Dict, List, Optional, Set, Tuple
 
 from ..cfg import (call_name, calls_in, walk_no_nested, parents_map, guards_of, attr_chain,
                    enum_paths, const_int, base_var)
@@ -179,11 +179,51 @@ def r15_2(ctx: Ctx):
                     if isinstance(v, ast.Compare) and isinstance(v.ops[0], ast.Eq) and isinstance(v.comparators[0], ast.Constant):
                         parsed.add(v.comparators[0].value)
     gathered: Optional[Set[str]] = None
+    conditional: List[Tuple[str, str]] = []
+    pmg = parents_map(gb.node)
     for n in walk_no_nested(gb.node):
         if isinstance(n, ast.For):
             s = _str_set(n.iter)
+            if s is None and isinstance(n.iter, ast.Name):
+                # the key list is built in a local: literal initialisation plus append/extend/+= of literals
+                nm_ = n.iter.id
+                s, found = set(), False
+                for st in walk_no_nested(gb.node):
+                    add = None
+                    if isinstance(st, ast.Assign) and norm(st.targets[0]) == nm_:
+                        add = _str_set(st.value)
+                        found = found or add is not None
+                        if add is None:
+                            s, found = None, False
+                            break
+                    elif isinstance(st, ast.AugAssign) and norm(st.target) == nm_ and isinstance(st.op, ast.Add):
+                        add = _str_set(st.value)
+                    elif isinstance(st, ast.Expr) and isinstance(st.value, ast.Call) and isinstance(st.value.func, ast.Attribute) \
+                            and norm(st.value.func.value) == nm_ and st.value.args:
+                        if st.value.func.attr == "append" and isinstance(st.value.args[0], ast.Constant):
+                            add = {st.value.args[0].value}
+                        elif st.value.func.attr == "extend":
+                            add = _str_set(st.value.args[0])
+                        elif st.value.func.attr in ("remove", "pop", "clear"):
+                            s, found = None, False
+                            break
+                    if add:
+                        gs_ = guards_of(st, pmg)
+                        if gs_:
+                            conditional += [(k_, " and ".join(("" if p_ else "not ") + norm(t_) for t_, p_ in gs_)) for k_ in sorted(add)]
+                        else:
+                            s |= add
+                if not found:
+                    s = None
             if s is not None:
                 gathered = s
+                gl = [(" and ".join(("" if p_ else "not ") + norm(t_) for t_, p_ in guards_of(n, pmg)))]
+                if gl != [""]:
+                    conditional += [(k_, gl[0]) for k_ in sorted(s)]
+    for k_, g_ in conditional:
+        ctx.ob("R15.2", gb, "section '%s' gathered only when %s" % (k_, g_), False,
+               "every listed pair of the bond, constraint and pair sections is an edge of the graph, whatever other "
+               "sections the file has: a section gathered only under a condition drops its pairs otherwise", node=gb.node)
     if gathered is None:
         # explicit subscripts itp_file['bonds'] ...
         ks = {n.slice.value for n in ast.walk(gb.node) if isinstance(n, ast.Subscript)
@@ -203,6 +243,12 @@ def r15_2(ctx: Ctx):
     ok = bool(tup) and [getattr(e, "attr", None) for e in tup[0].elts] == ["atom_from", "atom_to"]
     ctx.ob("R15.2", gb, tup[0] if tup else "gathered pair", ok, "each record contributes its two atom numbers (ai, aj)",
            node=tup[0] if tup else gb.node)
+    if tup:
+        from ..cfg import conjuncts
+        gl_ = [x for t_, p_ in guards_of(tup[0], pmg) for x in conjuncts(t_, p_)]
+        extra_ = [g for g in gl_ if not (g[1] and " in " in g[0])]       # `key in file` presence tests are harmless
+        ctx.ob("R15.2", gb, "conditions on gathering a record: %s" % (gl_ or "none"), not extra_,
+               "every record of the three sections becomes an edge: no record is skipped under a condition", node=tup[0])
     lb = ctx.func("ItpLineBonds._init_fields")
     from ..pat import find as pfind
     a_i = pfind(lb.node, "self._fields['ai'] = int(V_f[0])")
